@@ -16,10 +16,20 @@ class ToGFA1:
       segment_names.append(str(oline))
     a.append(",".join(segment_names))
     overlaps = []
-    for oline in self.captured_edges:
-      gfapy.Field._validate_gfa_field(oline.line.overlap, "alignment_gfa1")
-      overlaps.append(str(oline.line.overlap))
-    a.append(",".join(overlaps))
+    captured_path = self.captured_path
+    for i in range(1, len(captured_path), 2):
+      edge = captured_path[i].line
+      overlap = edge.overlap
+      if not (captured_path[i-1] == edge.oriented_from and
+              captured_path[i+1] == edge.oriented_to):
+        # the path goes through the edge from the to- to the from-segment
+        overlap = overlap.complement()
+      gfapy.Field._validate_gfa_field(overlap, "alignment_gfa1")
+      overlaps.append(str(overlap))
+    if overlaps:
+      a.append(",".join(overlaps))
+    else:
+      a.append("*") # a path consisting of a single segment
     for tn in self.tagnames:
       a.append(self.field_to_s(tn, tag=True))
     return a
